@@ -36,7 +36,7 @@ func init() {
 			}
 			return m
 		},
-		Required: []string{"add ok", "double ok", "scalarmult ok", "basemult ok", "isoncurve true", "isoncurve false", "isoncurve: curve point with a coordinate in [n, p)", "identities ok", "result=identity"},
+		Required: []string{"add ok", "double ok", "scalarmult ok", "basemult ok", "isoncurve true", "isoncurve false", "isoncurve: curve point with a coordinate in [n, p)", "add: operands with the same y and different x", "identities ok", "result=identity"},
 	})
 }
 
@@ -119,6 +119,10 @@ func judge(class string, key []byte, o *fw.Obs) {
 		x2, y2, m2 := decPt(p[2])
 		if m1.Inf || m2.Inf || weier.Equal(m1, m2) || weier.Equal(m1, mc.Neg(m2)) {
 			o.Nontrivial()
+		}
+		if !m1.Inf && !m2.Inf && m1.Y.Cmp(m2.Y) == 0 && m1.X.Cmp(m2.X) != 0 {
+			o.Nontrivial()
+			o.Count("add: operands with the same y and different x")
 		}
 		want := mc.Add(m1, m2)
 		var x, y, xr, yr *big.Int
@@ -312,6 +316,39 @@ func buildBoundary() {
 	}
 }
 
+// betaPoint returns (beta*x, y) for a non-trivial cube root of unity beta mod p: a different curve point
+// with the SAME y coordinate (secp256k1 has this endomorphism because a = 0).
+var (
+	beta     *big.Int
+	betaOnce sync.Once
+)
+
+func betaPoint(pt weier.Pt, twice bool) weier.Pt {
+	betaOnce.Do(func() {
+		e := new(big.Int).Div(new(big.Int).Sub(mc.P, big.NewInt(1)), big.NewInt(3))
+		for z := int64(2); ; z++ {
+			b := new(big.Int).Exp(big.NewInt(z), e, mc.P)
+			if b.Cmp(big.NewInt(1)) != 0 {
+				beta = b
+				return
+			}
+		}
+	})
+	if pt.Inf {
+		return pt
+	}
+	x := new(big.Int).Mul(pt.X, beta)
+	if twice {
+		x.Mul(x, beta)
+	}
+	x.Mod(x, mc.P)
+	q := weier.Pt{X: x, Y: new(big.Int).Set(pt.Y)}
+	if !mc.OnCurve(q.X, q.Y) {
+		panic("c17: endomorphism image is not on the curve")
+	}
+	return q
+}
+
 func randPoint(g *fw.Gen) weier.Pt {
 	if g.Rng.Intn(12) == 0 {
 		if b := boundaryPoints(); len(b) > 0 {
@@ -390,7 +427,7 @@ func gen(g *fw.Gen) {
 	for n := g.ShareOf(3000, 100000); n > 0; n-- {
 		p := randPoint(g)
 		var q weier.Pt
-		switch g.Rng.Intn(8) {
+		switch g.Rng.Intn(10) {
 		case 0:
 			q = p
 		case 1:
@@ -402,6 +439,10 @@ func gen(g *fw.Gen) {
 			q = randPoint(g)
 		case 4:
 			p, q = weier.Inf(), weier.Inf()
+		case 5: // same y, different x
+			q = betaPoint(p, g.Rng.Intn(2) == 0)
+		case 6: // same x up to the endomorphism and opposite y
+			q = mc.Neg(betaPoint(p, g.Rng.Intn(2) == 0))
 		default:
 			q = randPoint(g)
 		}
